@@ -91,18 +91,25 @@ def make_world(rng, ties_ok=True):
     n_basis = 3
     basis = np.array([base * rng.uniform(0.3, 1.5) + rng.uniform(0.3, 1.5) * rng.standard_normal(base.shape) ** 2
                       for _ in range(n_basis)])
-    return dict(n_rdm=n_rdm, n_cond=n_cond, rgk=rgk, pgk=pgk, data=data, rd=rd, pd=pd, basis=basis)
+    # descriptors are handed to the library as lists or as numpy arrays (condition numbers as an increasing integer
+    # array are the most ordinary descriptor there is)
+    return dict(n_rdm=n_rdm, n_cond=n_cond, rgk=rgk, pgk=pgk, data=data, rd=rd, pd=pd, basis=basis,
+                cont=gen.pick(rng, gen.CONTAINERS))
+
+
+def descs(w, which):
+    return {k: gen.wrap(list(v), w.get('cont', 'list')) for k, v in w[which].items()}
 
 
 def data_obj(w):
-    return RDMs(w['data'].copy(), rdm_descriptors=copy.deepcopy(w['rd']), pattern_descriptors=copy.deepcopy(w['pd']),
+    return RDMs(w['data'].copy(), rdm_descriptors=descs(w, 'rd'), pattern_descriptors=descs(w, 'pd'),
                 dissimilarity_measure='euclidean')
 
 
 def make_models(rng, w, for_cv):
     """list of (model, theta_or_None, fitter_or_None)"""
     def mrd(v):
-        return RDMs(np.atleast_2d(v).copy(), pattern_descriptors=copy.deepcopy(w['pd']))
+        return RDMs(np.atleast_2d(v).copy(), pattern_descriptors=descs(w, 'pd'))
     kinds = [gen.pick(rng, ['fixed', 'weighted', 'select', 'interpolate']) for _ in range(int(rng.integers(1, 4)))]
     if 'fixed' not in kinds and rng.integers(2):
         kinds.append('fixed')
@@ -413,6 +420,34 @@ def run_fixed(ctx):
         ctx.fail('eval_fixed', dict(sig, what='ceiling_value'), 'noise ceiling is not the one of the data', wit())
     elif not sample_ok(ctx, 'eval_fixed', sig, w, ncs[0]['call']['args'][0], wit):
         return
+    # the data object lives on: the user edits it in place (new values written into the array, conditions reordered)
+    # and evaluates again.  Result and noise ceiling must be those of the object as it is NOW, i.e. equal to what a
+    # freshly built object with the same content gives
+    d = data_obj(w)
+    try:
+        E.eval_fixed(models, d, theta=thetas, method=method)
+        how = gen.pick(rng, ['write_values', 'reorder', 'sort_by'])
+        if how == 'write_values':
+            d.dissimilarities[:] = w['data'] * rng.uniform(0.3, 3, size=(n, 1)) + rng.uniform(0.1, 2, size=w['data'].shape)
+        elif how == 'reorder':
+            d.reorder([int(i) for i in rng.permutation(w['n_cond'])])
+        else:
+            d.sort_by(puid=[int(v) for v in rng.permutation(np.asarray(w['pd']['puid']))])
+        again = E.eval_fixed(models, d, theta=thetas, method=method)
+        fresh = RDMs(np.array(d.dissimilarities, copy=True), dissimilarity_measure='euclidean',
+                     rdm_descriptors={k: gen.wrap(list(v), w['cont']) for k, v in d.rdm_descriptors.items()},
+                     pattern_descriptors={k: gen.wrap(list(v), w['cont']) for k, v in d.pattern_descriptors.items()})
+        ref = E.eval_fixed(models, fresh, theta=thetas, method=method)
+    except Exception as exc:
+        ctx.fail('eval_fixed', dict(sig, what='raised_on_reused_object', exception=type(exc).__name__), repr(exc), wit())
+        return
+    ctx.case('eval_fixed', dict(sig, reused_object=how))
+    if not (close(np.asarray(again.evaluations), np.asarray(ref.evaluations), 1e-12, 1e-12)
+            and close(np.asarray(again.noise_ceiling, dtype=float), np.asarray(ref.noise_ceiling, dtype=float), 1e-12, 1e-12)
+            and close(np.atleast_2d(again.variances), np.atleast_2d(ref.variances), 1e-12, 1e-15)):
+        ctx.fail('eval_fixed', dict(sig, what='history_dependent'), f'after an in-place {how} of the data object a second '
+                 f'eval_fixed differs from eval_fixed on a freshly built object with the same content: noise ceiling '
+                 f'{np.asarray(again.noise_ceiling).tolist()} vs {np.asarray(ref.noise_ceiling).tolist()}', wit(how=how))
 
 
 # ---------------------------------------------------------------------------
